@@ -991,6 +991,12 @@ fn c08_forward(ctx: &Ctx, s: &SizeInfo, content_cw: &[u8], bits: &[bool], w: usi
                     class: "render_fixed_pattern_generic_bit_type".into(),
                     detail: format!("{}: rendering a MatrixMap of a non-bool bit type does not put the fixed pattern where the standard says", s.name),
                 });
+            } else if let Some(d) = guard(|| map.third_value(s).clone()).unwrap_or_else(|p| Some(format!("{}: parsing an array of a non-bool bit type panicked at {}", s.name, p.loc))) {
+                o.violations.push(Violation {
+                    prop: "C08",
+                    class: "accepted_not_rerenderable_generic_bit_type".into(),
+                    detail: d,
+                });
             } else if !map.tag_roundtrip_ok {
                 o.violations.push(Violation {
                     prop: "C08",
